@@ -101,6 +101,7 @@ def plan(rng, idx, tier):
             ng = r.sub('many').pick([130, 256, 300, 512, 900])      # thresholds in the number of graphs / of bad graphs
             all_bad = ng in (256, 512)      # exactly 256 / 512 offending graphs: an exit status is eight bits wide
             if all_bad:
+                bad_src.clear()           # the other inputs stay compliant: the total is exactly 256 or 512
                 bad_src.add(i)
         graphs = []
         bad_at = r.randrange(ng) if (i in bad_src and ng) else None
@@ -113,6 +114,9 @@ def plan(rng, idx, tier):
                                        extra_edge_roles=[gmodels.top_role(spec)] if gr.chance(0.3) else [])
             c = gcontent.gen_content(gr, spec, ccfg)
             tree = gcontent.layout_tree(gr.sub('layout'), c, spec, gcontent.LayoutCfg(p_align=gr.pick([0, 0, 0.3])))
+            if all_bad:
+                # every one of these graphs has an offending triple for certain
+                tree = ['a', [['/', 'alpha'], [(gmodels.invalid_roles(spec) or [':zzz'])[0], str(j)]]]
             if bad and gr.chance(0.15):
                 # the same offending triple written twice (a duplicate in the triple list)
                 _duplicate_bad_branch(tree, spec)
